@@ -194,7 +194,7 @@ PROC_INVS = ["BookkeepingOK", "StrictIffWarn", "ProcHistoryFree", "StrictIffWarn
 PROC_CLASSES = '= {"TopBadKV", "TopDupKey", "TopBadUrg", "Junk", "EndOneSpace", "EndNoDetails"}'
 UNSET_OPS_USED = "  EditOpsUsed <- UnsetFocusOps\n"
 # (CascadeAgrees is a constant-level formula: it is checked in MC_Changelog_lts.cfg only)
-LTS_INVS = ["LtsTypeOK", "Total", "Deterministic", "StrictIffWarn", "SlurpOnlyFromHeading", "TrailingHasTarget"]
+LTS_INVS = ["LtsTypeOK", "Total", "Deterministic", "PayloadFree", "StrictIffWarn", "SlurpOnlyFromHeading", "TrailingHasTarget"]
 
 
 def cfg(mode, classes="<- AllClasses", lines=0, blocks=0, body=0, budget=0, edits=0, bug="none", emit=True, invs=(), lead=1, extra=""):
@@ -213,6 +213,8 @@ NEG_CONTROLS = [
     ("noBranch:CNoDetailsReject", cfg("lts", bug="noBranch:CNoDetailsReject", emit=False, invs=LTS_INVS), {"Total"}),
     ("twoBranches", cfg("lts", bug="twoBranches", emit=False, invs=LTS_INVS), {"Deterministic"}),
     ("strictSkips:CEnd", cfg("lts", bug="strictSkips:CEnd", emit=False, invs=LTS_INVS), {"StrictIffWarn"}),
+    # the report of a branch uses the input line it quotes as a format string (round-6 seeded change)
+    ("diagFormats:CJunk", cfg("lts", bug="diagFormats:CJunk", emit=False, invs=LTS_INVS), {"PayloadFree"}),
     ("trailingFirst", cfg("text", classes="= {}", lines=5, blocks=2, body=1, budget=0, bug="trailingFirst", emit=False,
                           invs=["NormalForm"]), {"NormalForm"}),
     ("authorOnTruncated", cfg("edit", classes="= {}", lines=2, blocks=1, body=1, budget=0, edits=1, bug="authorOnTruncated",
@@ -228,7 +230,7 @@ NEG_CONTROLS = [
     ("unsetFormatsEmpty", cfg("edit", classes="= {}", lines=3, blocks=1, body=1, budget=0, edits=1, bug="unsetFormatsEmpty", emit=False,
                               invs=EDIT_INVS, lead=0, extra=UNSET_OPS_USED), {"NormalFormEdited"}),
 ]
-QUICK_CONTROLS = ("noBranch:CNoDetailsReject", "trailingFirst", "HeadingMemo", "unsetFormatsEmpty")
+QUICK_CONTROLS = ("noBranch:CNoDetailsReject", "diagFormats:CJunk", "trailingFirst", "HeadingMemo", "unsetFormatsEmpty")
 
 
 def neg_control(ctx, name, text, want):
@@ -269,10 +271,10 @@ def observe_counts(text, aea):
         return None
     try:
         cl = o.cl
-        return dict(w=o.nwarn, nb=len(cl), ini=len(cl.initial_blank_lines),
+        return dict(w=o.nwarn, nb=len(cl), ini=len(cl.initial_blank_lines), msgs=o.msgs,
                     ch=[len(b.changes()) for b in cl], tr=[len(getattr(b, "_trailing")) for b in cl])
     except AttributeError:
-        return dict(w=o.nwarn, nb=len(o.cl), ini=None, ch=None, tr=None)
+        return dict(w=o.nwarn, nb=len(o.cl), ini=None, ch=None, tr=None, msgs=o.msgs)
 
 
 def lts_completions(edges, eof):
@@ -300,20 +302,25 @@ def lts_completions(edges, eof):
     return comp
 
 
-def replay_edge(ctx, rng, e, path, eof, canonical, completion=(), stress=False):
-    """-> violation message or None; diagnostics go to ctx.drift"""
+def replay_edge(ctx, rng, e, path, eof, canonical, completion=(), stress=False, kind=None):
+    """-> violation message or None; diagnostics go to ctx.drift.  kind: payload kind of the specification
+    (PayloadKinds) for the edge's own line and the completion -- "fmt": their free-text pieces hold format-string
+    hazards (the path to the source state stays random); None: random."""
     aea = e["aea"]
     classes = path + [e["c"]]
     full = classes + list(completion)
-    lines_full, _ = cc.conc_text(rng, full, canonical=canonical, stress=stress)
+    haz = None if kind is None else (kind == "fmt")
+    lines_full, _ = cc.conc_text(rng, path, canonical=canonical, stress=stress)
+    lines_full = lines_full + cc.conc_text(rng, full[len(path):], canonical=canonical, stress=stress, haz=haz)[0]
     lines = lines_full[:len(classes)]
-    case = {"kind": "text", "lines": lines, "aea": aea, "classes": classes}
+    case = {"kind": "text", "lines": lines, "aea": aea, "classes": classes, "payload_kind": kind}
     # the text with the completion comes first and (random concretizations) every judged text is written
     # afresh: no line of it has been through the parser in this process before, so what the first call
     # (strict or lenient, per the plan) does with it is seen
     # (the prefix without the edge's own line is the text of another edge -- the last one of the shortest path)
     for n in (len(lines_full), len(lines)):
-        judged = lines_full[:n] if canonical or n == len(lines_full) else cc.conc_text(rng, full[:n], stress=stress)[0]
+        judged = lines_full[:n] if canonical or n == len(lines_full) else \
+            cc.conc_text(rng, path, stress=stress)[0] + cc.conc_text(rng, full[len(path):n], stress=stress, haz=haz)[0]
         form = rng.choice(cc.FORMS_W)
         msg, info = cc.c15_laws(cc.join(judged), aea, rng, form)
         if info.get("repeat_drift"):
@@ -347,14 +354,18 @@ def replay_edge(ctx, rng, e, path, eof, canonical, completion=(), stress=False):
         ctx.drift("%s: line not stored as trailing line (%r)" % (what, lines[-1]))
     if out["dest"] == "chg" and sum(b["ch"]) != sum(a["ch"]) + 1:
         ctx.drift("%s: line not stored as change line (%r)" % (what, lines[-1]))
+    # the report quotes the line as DATA (spec: Quoted / Report): the text of the line is in one of the messages, verbatim
+    if out["w"] == 1 and e.get("q") == "line" and e.get("rep", {}).get(kind or "plain") == "report" and len(lines[-1]) < 4096 \
+            and not any(lines[-1] in m for m in b["msgs"]):
+        ctx.drift("%s: no diagnostic quotes the offending line verbatim (%r; messages %r)" % (what, lines[-1], b["msgs"][-2:]))
     return None, None
 
 
 # ------------------------------------------------------------------ (b) bounded texts
 
-def replay_text(ctx, rng, case, aea, canonical, stats, stress=False, alive=None):
+def replay_text(ctx, rng, case, aea, canonical, stats, stress=False, alive=None, haz=None):
     classes = case["t"]
-    lines, _ = cc.conc_text(rng, classes, canonical=canonical, stress=stress)
+    lines, _ = cc.conc_text(rng, classes, canonical=canonical, stress=stress, haz=haz)
     text = cc.join(lines)
     form = rng.choice(cc.FORMS_W)
     msg, info = cc.c15_laws(text, aea, rng, form)
@@ -422,7 +433,7 @@ def replay_proc(ctx, rng, cases, quick):
     is the verdict (cc.run_calls), TLC's outcome per call (warnings / raised) a diagnostic"""
     n = 0
     for ci, c in enumerate(cases):
-        lines = cc.conc_same(rng, c["t"], c["same"], stress=(ci % 50 == 13))
+        lines = cc.conc_same(rng, c["t"], c["same"], stress=(ci % 50 == 13), haz=True if ci % 4 == 2 else None)
         calls = [(x["s"], x["a"]) for x in c["calls"]]
         form = rng.choice(cc.TEXT_FORMS if not "".join(lines).strip() else cc.FORMS_W)
         msg, obs = cc.run_calls(cc.join(lines), calls, form)
@@ -662,15 +673,24 @@ def run(ctx):
     eof = {(e["aea"], skey(e["from"])): e["out"] for e in edges if e["c"] == "EOF"}
     comp = lts_completions(edges, eof)
     n_edges = 0
+    n_fmt = [0]
     step_edges = sorted((e for e in edges if e["c"] != "EOF"), key=lambda e: (e["aea"], skey(e["from"]), e["c"]))
     for e in step_edges:
         k = (e["aea"], skey(e["from"]))
         if k not in paths:
             raise core.MachineryError("LTS state without path: %r" % (k,))
-        for j in range(2 if quick else 6):
+        # payload kinds of the specification: every edge once in canonical form, with every kind TLC lists for it
+        # (rep: kind -> outcome of the branch's report) and with random payloads
+        kinds = sorted(e.get("rep") or ())
+        if kinds != ["fmt", "plain"] or any(v == "crash" for v in e["rep"].values()):
+            raise core.MachineryError("EDGE line without the payload kinds of the specification: %r" % (e,))
+        plan = [None, "fmt", None, "plain", "fmt", None]
+        for j in range(3 if quick else 6):
             case, msg = replay_edge(ctx, rng, e, paths[k], eof, canonical=(j == 0),
                                     completion=comp.get((e["aea"], skey(e["to"])), ()),
-                                    stress=(j > 0 and (n_edges // 2) % 3 == 0))
+                                    stress=(j > 0 and (n_edges // 3) % 3 == 0 and plan[j] != "fmt"), kind=plan[j])
+            if plan[j] == "fmt":
+                n_fmt[0] += 1
             ctx.case_seen(("edge", k[0], k[1], e["c"]), True)
             n_edges += 1
             if msg:
@@ -679,6 +699,7 @@ def run(ctx):
         if len(ctx.violations) >= 5:
             break
     ctx.extra["lts_edges_replayed"] = n_edges
+    ctx.extra["lts_edges_with_format_hazards"] = n_fmt[0]
     ctx.extra["model_constants"] = {"classes": len(cc.ALL_CLASSES), "AEAs": [True, False],
                                     "text": "MaxLines 5, Budget 1" if quick else "MaxLines 4 / Budget 2 and MaxLines 7 / Budget 1",
                                     "edit": "MaxLines 3, Budget 1, 3 classes, MaxEdits 2" if quick else "MaxLines 3, Budget 1, 2 classes, MaxEdits 3 and MaxLines 1, Budget 0, MaxEdits 4"}
@@ -707,7 +728,7 @@ def run(ctx):
                 break
         for j in range(kconc):
             case, msg = replay_text(ctx, rng, c, k[1], canonical=False, stats=stats, stress=(ki % 40 == 7),
-                                    alive=alive if ki % 450 == 0 else None)
+                                    alive=alive if ki % 450 == 0 else None, haz=True if ki % 4 == 1 else None)
             ctx.case_seen(("text", k), len(k[0]) > 0)
             n_text += 1
             if msg:
